@@ -97,6 +97,13 @@ ASSUME = [
     "pandas/CSV persistence is also driven with the label columns switched off on writer and reader (taxa_col=None, "
     "taxa_grp_col=None): rows are then identified by position, the row count and order must be preserved (taxa missing for "
     "every trait included) and the harness re-attaches the labels through the public setters before the history goes on",
+    "label contents: every taxon / trait keeps one label for a whole history; 60% of the histories with persistence steps (15% of "
+    "the others) use hostile contents - '#', ',', ';', quotes, tab, inner / leading / trailing blanks, non-ASCII, number-like "
+    "('007', '1e5', '43.50') and missing-value / boolean tokens ('NA', 'None', 'nan', 'null', 'N/A', '<NA>', '#N/A', 'True', "
+    "'-inf') for taxa, a similar list for trait names; after every persistence step the labels must come back exactly (same "
+    "strings, as str) on the HDF5, pandas and CSV routes and no value may turn missing.  Not asserted (counted): on the CSV route "
+    "taxa labels that are number-like or pandas missing-value tokens - untyped text read with pandas defaults turns an entirely "
+    "number-like label column into numbers and the tokens into NaN; fidelity of text files is C16's business",
     "tolerances: pbmon/oracle/bvscale.py (round trip 4*eps*(k+1)*(|raw|+2M) after k operations, summaries 1e-12*(k+1)*M, "
     "M = largest finite magnitude of the trait)",
 ]
@@ -1087,6 +1094,12 @@ def _case_ops(ctx, c):
                 # a result built by the standardising constructor is that constructor's responsibility
                 check_stored(ctx, obj, R, sts, mg, k, site0 if _FN[0] > fn0 else site, coords, derived=True, prec=prec_of(lids))
             check_stats(ctx, obj, R, sts, mg, k, coords, tag, prec_of(lids))
+            if io_op and obj.trait is not None and [x for x in obj.trait] != tnames(ltids).tolist():
+                try:
+                    obj.trait = tnames(ltids)      # altered trait names were judged above; put them back for the rest of the history
+                except Exception as e:
+                    ctx.raised("re-attaching labels", e)
+                    return
             relabel = io_op and obj.taxa is not None and [x for x in obj.taxa] != labels(lids)["taxa"].tolist()
             if (obj.taxa is None or relabel) and io_op:
                 # read back without label columns (or, from text, with altered labels - judged above): the user puts the labels
@@ -1214,7 +1227,7 @@ def case_generic(ctx, c):
               witness={"raw": Rf, "stored": flat(sm.mat), "location": sm.location, "scale": sm.scale, "first_bad": first}, coords=coords)
 
 
-FAMILIES = {"build": (case_build, 10000, 320000), "ops": (case_ops, 5200, 144000), "generic": (case_generic, 3600, 64000)}
+FAMILIES = {"build": (case_build, 10000, 320000), "ops": (case_ops, 5200, 120000), "generic": (case_generic, 3600, 64000)}
 
 
 def run_shard(ctx):
